@@ -489,6 +489,8 @@ class InstanceState(interfaces.InspectionAttrInfo, Generic[_O]):
 
             if to_transient and state.key:
                 del state.key
+                if deleted:
+                    del state._deleted
             if persistent:
                 if to_transient:
                     if persistent_to_transient is not None:
